@@ -194,6 +194,21 @@ func SetField(obj any, name string, val any) bool {
 	return true
 }
 
+// ZeroField sets an unexported field to its zero value by name (false when the field is gone).
+func ZeroField(obj any, name string) bool {
+	v := reflect.ValueOf(obj)
+	if v.Kind() != reflect.Ptr || v.Elem().Kind() != reflect.Struct {
+		return false
+	}
+	f := v.Elem().FieldByName(name)
+	if !f.IsValid() {
+		return false
+	}
+	f = reflect.NewAt(f.Type(), unsafe.Pointer(f.UnsafeAddr())).Elem()
+	f.Set(reflect.Zero(f.Type()))
+	return true
+}
+
 // Field returns a pointer to an unexported field by name (nil when gone).
 func Field(obj any, name string) any {
 	v := reflect.ValueOf(obj)
